@@ -41,6 +41,16 @@ CLAUSES = [
     inv({"classes/first.yml": cls("first", x="a"), "classes/a.yml": cls("a"), "nodes/n.yml": cls("n", ["first", "pre.${x}"]),
          "classes/pre/a.yml": cls("pre.a")}),
     inv({"classes/a.yml": cls("a", ["${x}"], x="b"), "classes/b.yml": cls("b"), "nodes/n.yml": cls("n", ["a"], x="c")}),
+    # an include entry without `${` is a literal class name, whatever other marker-like text it contains
+    inv({"classes/t$[p].yml": cls("t$[p]"), "classes/t\\$[p].yml": cls("t\\$[p]"), "classes/a.yml": cls("a"),
+         "nodes/n.yml": cls("n", ["a", "t\\$[p]"]), "nodes/m.yml": cls("m", ["t$[p]", "a"])}),
+    inv({"classes/a.yml": cls("a", ["x\\$[q]"]), "nodes/n.yml": cls("n", ["a"])}),
+    inv({"classes/a$b.yml": cls("a$b"), "classes/c}.yml": cls("c}"), "nodes/n.yml": cls("n", ["a$b", "c}"])}),
+    # include cycles whose back edges are reference-bearing names
+    inv({"classes/defs.yml": cls("defs", role="web"), "classes/web.yml": cls("web", ["${role}"]), "nodes/n.yml": cls("n", ["defs", "${role}"])}),
+    inv({"classes/defs.yml": cls("defs", first="a", second="b"), "classes/roles/a.yml": cls("roles.a", ["roles.${second}"]),
+         "classes/roles/b.yml": cls("roles.b", ["roles.${first}"]), "nodes/n.yml": cls("n", ["defs", "roles.${first}"])}),
+    inv({"classes/defs.yml": cls("defs", role="web"), "classes/web.yml": cls("web", ["${role}", "web"]), "nodes/n.yml": cls("n", ["defs", "web", "${role}"])}),
     # reference in include that cannot be resolved yet
     inv({"classes/a.yml": cls("a"), "nodes/n.yml": cls("n", ["${x}", "a"], x="a")}),
 ]
